@@ -15,6 +15,16 @@ PROPS = {
                 technique="Coq proof (induction over heights/phases, potential argument) + differential correspondence",
                 level_text="Theorems over the Gallina transcription of block/reward.go and block/coinbase.go with explicit uint64 wrap-around, for every uint64 height and every total up to max supply + one reward, parametric in the configuration (side condition discharged by vm_compute at the constants regenerated from /repo on every run). The transcription is compared with the Go functions at every phase boundary and on random heights/totals; the property predicate is also evaluated on Go's own outputs.",
                 level_note="Trusted: Coq kernel, paramdump translator, Gallina printer; the model is hand-written and tied to the code by the correspondence run (about 5 800 cases per quick run). No axioms."),
+    "C08": dict(configs=["mainnet", "testnet", "unittest"], harness="pure", family="c08",
+                check_mods=["Check.C08"], corr="c08_bad_corr", prop="c08_bad_prop",
+                assumptions=["timestamps of consecutive blocks never decrease (protocol rule enforced by checkBlock) and are below 2^63 ms; outside it the uint64 subtraction wraps and the retarget can panic or jump (proved: C08_outside_decreasing_timestamps_*)",
+                             "difficulties up to 2^100 (the Mul64 overflow edge 2^128/(N*T) ~ 2^107 is proved to panic: C08_nd_panic_overflow)",
+                             "exactness/antitone theorems need parent_height*T + GENESIS_TIMESTAMP < 2^63 (true for every height up to MAX_HEIGHT) and solve time below 2^64/3 ms",
+                             "the database error path of GetNextDifficulty (grandparent missing) is not modelled; the harness checks it returns an error and that only the grandparent record is read",
+                             "util.GetTarget (stratum job target) is proved correct only below 2^64: it divides by the low word (C08_get_target_refuted)"],
+                technique="Coq proof (word-level model of util/uint128 proved equal to exact N arithmetic incl. the 128/128 trial-quotient division; lia/nia over the exact floor formula) + differential correspondence in three build configurations",
+                level_text="Theorems over a Gallina transcription of blockchain/difficulty.go (difficultyEMA, the arithmetic of GetNextDifficulty with its uint64 wrap-around, int64 casts, LTTC scaling, clamps and MIN_DIFFICULTY floor), of the util/uint128 operations it uses (Mul64, QuoRem64/Div64, QuoRem/Div, Add, Sub, Cmp: transcribed word by word over math/bits with explicit panic outcomes) and of the proof-of-work target uint128.Max.Div(diff). Proved for every configuration satisfying a boolean side condition (discharged by vm_compute at the constants regenerated from /repo on every run, mainnet/testnet/unittest): result >= MIN_DIFFICULTY and nonzero for all inputs; exact characterisation of the panics; no panic for every height, every difficulty up to 2^100 and all non-decreasing timestamps below 2^63; equality with the exact rational formula rounded down; rise bound next*(N-1) <= prev*N; antitone in the parent timestamp; PoW target (2^128-1)/d defined for every d >= 1. The transcription is compared with the real Go functions (GetNextDifficulty itself over a map-backed store, difficultyEMA through an add-only hook, uint128 methods, ValidPowValue, util.GetTarget) on the DESIGN grid and random inputs in all three builds; the property predicate (with the exact formula recomputed in unbounded integers) is also evaluated on Go's own outputs.",
+                level_note="Trusted: Coq kernel, paramdump translator, Gallina printer; math/bits primitives (Mul64, Add64, Sub64, Div64, LeadingZeros64, shifts) are modelled by their documented semantics; the model is hand-written and tied to the code by the correspondence run (about 10 800 cases per quick run, 100 000 per thorough run, including both sides panicking at the Mul64 overflow edge and at the zero denominator). Two statements are refuted, not weakened: util.GetTarget panics when the low 64 bits of the difficulty are zero (witness 2^64) and ignores the high word; with decreasing timestamps the retarget panics or jumps by N*T. No axioms."),
 }
 
 HIST_MODS = ["Model.Ledger", "Model.Node", "Check.Hist"]
@@ -30,7 +40,9 @@ PROPS["C03"] = dict(configs=["verifnet"], harness="ledger", family="hist", harne
     technique="Coq proof over the ledger/node model + differential correspondence on generated block-tree histories",
     level_text="WORK IN PROGRESS", level_note="WORK IN PROGRESS")
 
-for _pid, _mods in (("C04", ["Check.C04"]), ("C05", ["Spec.WellFormed", "Check.C05"])):
+for _pid, _mods in (("C04", ["Check.C04"]), ("C05", ["Spec.WellFormed", "Check.C05"]), ("C17", ["Check.C01", "Check.C17"]),
+                    ("C02", ["Check.C01", "Check.C17", "Spec.Rules", "Check.C02"]),
+                    ("C06", ["Check.C01", "Check.C17", "Spec.Rules", "Check.C02", "Check.C06"])):
     PROPS[_pid] = dict(configs=["verifnet"], harness="ledger", family="hist", harness_procs=8, parallel=16,
         check_mods=HIST_MODS + _mods, corr=_pid.lower() + "_bad_corr", prop=_pid.lower() + "_bad_prop", trusted_extra=HIST_TB,
         technique="Coq proof over the ledger/node model + differential correspondence on generated block-tree histories",
